@@ -36,3 +36,19 @@ impl Signature {
     ensures *r == self.kid(),
 //@end
 }
+
+pub open spec fn alg_of(s: SignatureScheme) -> int {
+    match s {
+        SignatureScheme::Ed25519 => 1,
+        SignatureScheme::RsaSsaPssSha256 => 2,
+        SignatureScheme::RsaSsaPssSha512 => 3,
+        SignatureScheme::EcdsaP256Sha256 => 4,
+        SignatureScheme::Unknown(_) => 0,
+    }
+}
+impl PublicKey {
+    pub closed spec fn sig_ok(self, msg: Seq<u8>, sig: Signature) -> bool {
+        !(self.scheme is Unknown) && ring::signature::sig_valid(alg_of(self.scheme), self.value.0@, msg, sig.value.0@)
+    }
+    pub closed spec fn kid(self) -> KeyId { self.key_id }
+}
